@@ -98,8 +98,8 @@ var c15Shapes = []struct {
 	{"Subscribe", []string{"plain", "resume", "group"}},
 	{"FetchMetadata", []string{"all"}},
 	{"FetchPartitionMetadata", []string{"p0"}},
-	{"Publish", []string{"none", "leader", "paused"}},
-	{"PublishAsync", []string{"one", "two", "paused"}},
+	{"Publish", []string{"none", "leader", "paused", "cursors"}},
+	{"PublishAsync", []string{"one", "two", "paused", "cursors"}},
 	{"PublishToSubject", []string{"subj"}},
 	{"SetCursor", []string{"set"}},
 	{"FetchCursor", []string{"get"}},
@@ -119,6 +119,8 @@ var c15Expected = map[string]string{
 	"Subscribe/plain": "send", "Subscribe/resume": "resumeStream", "Subscribe/group": "subscribe",
 	"Publish/none": "natsPublish", "Publish/leader": "natsPublish", "Publish/paused": "resumeStream",
 	"PublishAsync/one": "natsPublish", "PublishAsync/two": "natsPublish", "PublishAsync/paused": "resumeStream",
+	// the server's own streams are resources like any other: a publish straight into the cursors stream is a stored cursor record
+	"Publish/cursors": "setCursor", "PublishAsync/cursors": "setCursor",
 	"PublishToSubject/subj": "natsPublish", "SetCursor/set": "setCursor", "FetchCursor/get": "getCursor",
 	"JoinConsumerGroup/newgroup": "joinGroup", "JoinConsumerGroup/existing": "joinGroup",
 	"LeaveConsumerGroup/victim": "leaveGroup", "FetchConsumerGroupAssignments/victim": "groupHeartbeat",
@@ -956,6 +958,31 @@ func (e *c15Env) call(method, shape, polName, mode, identity string) (own bool, 
 		do = func(ctx context.Context) error {
 			_, err := api.FetchPartitionMetadata(ctx, &client.FetchPartitionMetadataRequest{Stream: R, Partition: 0})
 			return err
+		}
+	case "Publish/cursors":
+		needFlush = true
+		fx.R = cursorsStream
+		do = func(ctx context.Context) error {
+			_, err := api.Publish(ctx, &client.PublishRequest{Stream: cursorsStream, Key: []byte("forged,key,0"), Value: []byte("x"), AckPolicy: client.AckPolicy_LEADER})
+			return err
+		}
+	case "PublishAsync/cursors":
+		needFlush = true
+		fx.R = cursorsStream
+		do = func(ctx context.Context) error {
+			fs := &c15PubStream{ctx: ctx, reqs: []*client.PublishRequest{{Stream: cursorsStream, Key: []byte("forged,key,0"), Value: []byte("x"), AckPolicy: client.AckPolicy_LEADER, CorrelationId: "c1"}}}
+			rerr := api.PublishAsync(fs)
+			if rerr != nil {
+				return rerr
+			}
+			fs.mu.Lock()
+			defer fs.mu.Unlock()
+			for _, r := range fs.resps {
+				if r.AsyncError != nil {
+					return fmt.Errorf("async error %s: %s", r.AsyncError.Code, r.AsyncError.Message)
+				}
+			}
+			return nil
 		}
 	case "Publish/none", "Publish/leader", "Publish/paused":
 		needFlush = true
